@@ -5902,6 +5902,8 @@ class Query(object):
             cache_entry = sql, adapter, attr_offsets
             database._constructed_sql_cache[sql_key] = cache_entry
         else: sql, adapter, attr_offsets = cache_entry
+        cache = local.db2cache.get(database)
+        if cache is not None: query._check_vars(cache)  # get_sql() may be called when no db_session is active
         arguments = adapter(query._vars)
         if query._translator.query_result_is_cacheable:
             arguments_key = HashableDict(arguments) if type(arguments) is dict else arguments
@@ -5910,6 +5912,15 @@ class Query(object):
             else: query_key = HashableDict(sql_key, arguments_key=arguments_key)
         else: query_key = None
         return sql, arguments, attr_offsets, query_key
+    def _check_vars(query, cache, values=None):
+        # only the primary key of an object is sent to the database, but the key of an object of another active db_session
+        # may be not assigned yet or belong to a concurrent transaction: reject it as kwargs filters and assignments do
+        for value in query._vars.values() if values is None else values:
+            if type(value) is tuple: query._check_vars(cache, value)
+            elif isinstance(value, Entity):
+                cache2 = value._session_cache_
+                if cache2 is not None and cache2 is not cache and cache2.is_alive:
+                    throw(TransactionError, 'An attempt to mix objects belonging to different transactions')
     def get_sql(query):
         sql, arguments, attr_offsets, query_key = query._construct_sql_and_arguments()
         return sql
@@ -6072,6 +6083,7 @@ class Query(object):
         sql, adapter = cache_entry
         cache.immediate = True
         cache.prepare_connection_for_query_execution()  # may clear cache.query_results
+        query._check_vars(cache)
         arguments = adapter(query._vars)
         cursor = database._exec_sql(sql, arguments)
         cache.query_results.clear()
